@@ -12,7 +12,7 @@ func c01Spec() s1Spec {
 		Rule: "rapid-generated scripts (config x 20-120 actions over 2-8 keys) run on one goroutine with an inline executor and a manual clock; " +
 			"every return value (entries with their expiration and refresh times), the whole key space (GetEntryQuietly) and EstimatedSize are compared with a map-with-deadlines model after every action; " +
 			"non-trivial = at least one operation on an expired-unswept key, or a reported eviction, or a load; distinct = hash of layout+op-kind sequence+outcome counts",
-		Profile: &vh.Profile{Name: "c01", Executors: []int{vh.ExecInline}, MinLen: 1, MaxLen: 120, MaxKeys: 8, Ops: vh.BaseOps(), ExtremeDur: true},
+		Profile: &vh.Profile{Name: "c01", Executors: []int{vh.ExecInline}, MinLen: 1, MaxLen: 120, MaxKeys: 8, Ops: with(vh.BaseOps(), "saveload", 1), ExtremeDur: true, BigWeights: true},
 		Facets:  vh.FRet | vh.FContents | vh.FIter | vh.FVis | vh.FPanic | vh.FLoad | vh.FDeadline,
 		NonTrivial: func(r *vh.Runner) bool {
 			return r.St.OpsOnExpired > 0 || r.St.AutoOverflow+r.St.AutoExpiration > 0 || r.St.Loads > 0
